@@ -240,6 +240,13 @@ func parseContracts(src, pkgName, file string) ([]*Contract, map[string]*define,
 		}
 	}
 	flush()
+	for _, c := range out {
+		if cur := c.Raw["cursor"]; len(cur) > 0 {
+			if err := expandCursor(c, cur[0]); err != nil {
+				return nil, nil, fmt.Errorf("%s:%d: %v", file, c.Line, err)
+			}
+		}
+	}
 	// parse expressions
 	for _, c := range out {
 		var err error
@@ -432,4 +439,33 @@ func rewriteInner(s string) string {
 		i++
 	}
 	return b.String()
+}
+
+// expandCursor generates the standard cursor contract of an offset-tracking Read method:
+//
+//	cursor <wire define> <offset field>
+//
+// Every call returns the next min(len(p), remaining) bytes of W = wire(recv), advances
+// the offset by that amount, reports io.EOF exactly when nothing remains, and leaves
+// the wire image unchanged.
+func expandCursor(c *Contract, spec string) error {
+	f := strings.Fields(spec)
+	if (len(f) != 2 && len(f) != 3) || len(c.Params) < 2 || len(c.Results) < 2 {
+		return fmt.Errorf("cursor <wire define> <offset field> on a method (recv) Read(p []byte) (n int, err error)")
+	}
+	w, off := f[0], c.Params[0]+"."+f[1]
+	x, p, n, e := c.Params[0], c.Params[1], c.Results[0], c.Results[1]
+	add := func(dst *[]Clause, text string) { *dst = append(*dst, Clause{Text: text, Line: c.Line}) }
+	add(&c.Requires, fmt.Sprintf("%s != nil && %s >= 0", x, off))
+	if len(f) == 3 {
+		add(&c.Requires, fmt.Sprintf("%s(%s)", f[2], x))
+		add(&c.Ensures, fmt.Sprintf("%s(%s)", f[2], x))
+	}
+	c.Lets = append(c.Lets, Let{Name: "W", Cl: Clause{Text: fmt.Sprintf("old(%s(%s))", w, x), Line: c.Line}})
+	add(&c.Ensures, fmt.Sprintf("old(%s) >= len(W) ==> %s == 0 && is_eof(%s) && %s == old(%s)", off, n, e, off, off))
+	add(&c.Ensures, fmt.Sprintf("old(%s) < len(W) ==> %s == nil && %s == min(len(%s), len(W)-old(%s)) && %s == old(%s)+%s", off, e, n, p, off, off, off, n))
+	add(&c.Ensures, fmt.Sprintf("forall(i, 0, %s, %s[i] == W[old(%s)+i])", n, p, off))
+	add(&c.Ensures, fmt.Sprintf("%s(%s) == W", w, x))
+	c.NoPanic = true
+	return nil
 }
